@@ -483,6 +483,7 @@ def config_lines(env, filters):
     cfg += filters
     for name in [x for x in env.get("_blacklist", "").split(";") if x]:
         cfg.append("components %d %s" % (BLACKLIST_FLAG, name))
+    cfg.append("bindself " + env.get("_bind", "all"))
     return cfg
 
 
@@ -630,6 +631,40 @@ def trace_first_load_only(ls):
     return ls
 
 
+# malloc()ed memory comes back filled with this byte in the three processes a chunk is run in (ASan fills with 0xbe by
+# default, which hides uninitialised reads behind a constant): a result that depends on it is an uninitialised read
+HEAP_FILLS = (0, 255)
+
+
+def first_dumps(raw):
+    """{cid: (load line, first dump block as text)} from raw harness output."""
+    res, cur, state, blk, load = {}, None, 0, [], None
+    for line in raw.split("\n"):
+        if line.startswith("echo CASE "):
+            cur, state, blk, load = int(line[10:]), 0, [], None
+        elif cur is None:
+            continue
+        elif line.startswith("load ") and load is None:
+            load = line
+            res[cur] = (load, None)
+        elif state == 0 and line.startswith("T "):
+            state, blk = 1, [line]
+        elif state == 1:
+            blk.append(line)
+            if line == "E":
+                state = 2
+                res[cur] = (load, "\n".join(blk))
+    return res
+
+
+def heap_fill_script(cid, case, top):
+    """only the main load of the case: dump, no tracing"""
+    snap, comps, env, filters, flags, removals = case
+    e2 = {k: v for k, v in env.items() if k not in ("_equiv", "_srcequiv", "_kinds")}
+    e2["_light"] = "1"
+    return [l for l in case_script(cid, (snap, comps, e2, filters, flags, removals), top) if l not in ("trace 1", "check")]
+
+
 def run_chunk(pool, snapexe, drv, chunk):
     """chunk: [(cid, case)] all of one snapshot.  Returns {cid: result dict}."""
     snap = chunk[0][1][0]
@@ -661,6 +696,35 @@ def run_chunk(pool, snapexe, drv, chunk):
             if cur is not None:
                 results[cur]["lines"].append(line)
         if rc == 0 and rc2 == 0:
+            # heap-content determinism: the main load of every case again, in processes whose malloc() returns other bytes
+            cands = [(cid, case) for cid, case in todo if not case[2].get("_srcequiv") and not case[2].get("_noheap")]
+            if cands:
+                # (the runs are compared with one another, not with the run above: hide/unhide renames change the readdir
+                #  order of a memory file system, which is the same in every run only from the second run of a script on)
+                script2 = []
+                for cid, case in cands:
+                    script2 += heap_fill_script(cid, case, top)
+                got = {}
+                for fill in HEAP_FILLS:
+                    e = _env()
+                    e["ASAN_OPTIONS"] += ":malloc_fill_byte=%d:max_malloc_fill_size=268435456" % fill
+                    rc3, out3, err3 = C.sh([snapexe], input=("\n".join(script2) + "\n").encode(), env=e, timeout=120 + 20 * len(cands))
+                    got[fill] = (rc3, first_dumps(out3.decode(errors="replace")))
+                (rca, da), (rcb, db) = got[HEAP_FILLS[0]], got[HEAP_FILLS[1]]
+                for cid, case in cands:
+                    a, b = da.get(cid), db.get(cid)
+                    if a is None and b is None:
+                        continue
+                    if (a is None or b is None) and (rca != 0 or rcb != 0):
+                        continue          # a process died: reported by the main run
+                    if a is None or b is None or a[0] != b[0] or a[1] != b[1]:
+                        diff = "load lines %s / %s" % (a[0] if a else None, b[0] if b else None)
+                        if a and b and a[1] and b[1]:
+                            la, lb = a[1].split("\n"), b[1].split("\n")
+                            k = next((i for i, (x, y) in enumerate(zip(la, lb)) if x != y), min(len(la), len(lb)))
+                            fa, fb = (la[k] if k < len(la) else "<end>").split(" "), (lb[k] if k < len(lb) else "<end>").split(" ")
+                            diff = "nobj %d/%d; first differing line %s: %s" % (len(la), len(lb), " ".join(fa[:3]), " ".join("%s->%s" % (x, y) for x, y in zip(fa, fb) if x != y)[:300])
+                        results[cid].setdefault("heap", []).append("malloc fill 0x%02x vs 0x%02x: %s" % (HEAP_FILLS[0], HEAP_FILLS[1], diff))
             pool.release(snap, top)
             break
         # the process died: the case in flight is the first one not finished
@@ -875,6 +939,8 @@ def verdicts(r):
         rc, err, err2 = r["crash"]
         out.append(("crash:" + crash_key(rc, err if rc != 0 and err.strip() else err + err2), "crash / sanitizer report / hang while loading"))
         return out
+    for h in r.get("heap", [])[:1]:
+        out.append(("heap-content-nondeterminism", "the same load gives another result when malloc() returns memory filled with another byte (an uninitialised read reaches the result): " + h))
     for l in lines:
         if l.startswith("load ") and "rc=0" not in l and "rc=-1" not in l:
             out.append(("load-rc", "hwloc_topology_load returned neither 0 nor -1: " + l))
@@ -1168,7 +1234,11 @@ def class_cases(run, pool, snaps):
             start = (run.seed * 7 + len(cls)) % len(inst)
             step = max(1, len(inst) // k)
             for j in range(k):
-                cases.append(("class", (snap, comps, env, [], 0, [inst[(start + j * step) % len(inst)]])))
+                e = env
+                if (nclasses + j + run.seed) % 4:
+                    e = dict(env)
+                    e["_noheap"] = "1"        # the heap-content clause on every fourth class case (every snapshot has dozens)
+                cases.append(("class", (snap, comps, e, [], 0, [inst[(start + j * step) % len(inst)]])))
     run.cov["file_name_classes"] = nclasses
     return cases
 
@@ -1431,6 +1501,165 @@ def node_mutation_cases(run, pool, snaps):
     return cases
 
 
+CPUID_LINE = re.compile(r"^([0-9a-f]+) ([0-9a-f]+) ([0-9a-f]+) ([0-9a-f]+) ([0-9a-f]+) => ([0-9a-f]+) ([0-9a-f]+) ([0-9a-f]+) ([0-9a-f]+)$")
+
+
+def tar_pu_files(tarball):
+    """{file name: text} of the puN files of an x86 CPUID dump"""
+    import tarfile
+    res = {}
+    with tarfile.open(tarball, "r:bz2") as tf:
+        for m in tf:
+            b = os.path.basename(m.name)
+            if m.isfile() and re.fullmatch(r"pu\d+", b):
+                res[b] = tf.extractfile(m).read().decode(errors="replace")
+    return res
+
+
+def mutate_cpuid(rng, pus):
+    """One mutation of a CPUID dump ({name: text}); returns (label, {name: new text}) for the changed files."""
+    names = sorted(pus, key=lambda n: int(n[2:]))
+    kind = rng.choice(["level-type", "level-type", "level-missing", "apicid-dup", "cache-sharing", "cache-sharing", "lines-deleted", "leaf1-count", "level-count"])
+    subset = names if rng.random() < 0.5 else rng.sample(names, max(1, len(names) // 2))
+    out = {}
+
+    def rewrite(name, fn):
+        lines = pus[name].split("\n")
+        new = []
+        for l in lines:
+            m = CPUID_LINE.match(l)
+            r = fn(l, [int(x, 16) for x in m.groups()]) if m else l
+            if r is not None:
+                new.append(r if isinstance(r, str) else "%x %x %x %x %x => %x %x %x %x" % tuple(r))
+        out[name] = "\n".join(new)
+    topo_leaves = (0xb, 0x1f, 0x80000026)
+    if kind == "level-type":
+        how = rng.choice(["unknown", "unknown-all", "same", "swap", "zero"])
+        pick = rng.randrange(4)
+
+        def f(l, v):
+            if v[1] in topo_leaves and v[6] & 0xffff and v[7] & 0xff00:
+                lvl = v[7] & 0xff
+                ty = (v[7] >> 8) & 0xff
+                if how == "unknown" and lvl == pick % 3 + 0:
+                    ty = 9
+                elif how == "unknown-all":
+                    ty = rng.choice([7, 9, 0xff])
+                elif how == "same":
+                    ty = 2
+                elif how == "swap":
+                    ty = {1: 2, 2: 1}.get(ty, ty)
+                elif how == "zero" and lvl == pick % 2:
+                    ty = 0
+                v[7] = (v[7] & ~0xff00) | (ty << 8)
+                return v
+            return l
+        for n in subset:
+            rewrite(n, f)
+        kind += ":" + how
+    elif kind in ("level-missing", "level-count"):
+        lvl = rng.randrange(3)
+
+        def f(l, v):
+            if v[1] in topo_leaves and (v[7] & 0xff) == lvl and v[6] & 0xffff:
+                if kind == "level-missing":
+                    return None
+                v[6] = (v[6] & ~0xffff) | rng.choice([1, 3, 0xffff, 7])
+                return v
+            return l
+        for n in subset:
+            rewrite(n, f)
+    elif kind == "apicid-dup":
+        for n in subset[1:][:max(1, len(subset) // 4)]:
+            out[n] = pus[names[0]]
+    elif kind == "cache-sharing":
+        val = rng.choice([0, 2, 4, 0x3f, 0xfff, 5])
+
+        def f(l, v):
+            if v[1] in (4, 0x8000001d) and v[5] & 0x1f:
+                v[5] = (v[5] & ~(0xfff << 14)) | (val << 14)
+                if rng.random() < 0.3:
+                    v[5] = (v[5] & ~(0x3f << 26)) | (rng.choice([0, 1, 7, 0x3f]) << 26)
+                return v
+            return l
+        for n in subset:
+            rewrite(n, f)
+    elif kind == "lines-deleted":
+        for n in subset[:max(1, len(subset) // 2)]:
+            lines = pus[n].split("\n")
+            for _ in range(rng.randint(1, 5)):
+                if len(lines) > 2:
+                    del lines[rng.randrange(len(lines))]
+            out[n] = "\n".join(lines)
+    else:
+        def f(l, v):
+            if v[1] == 1:
+                v[6] = (v[6] & ~(0xff << 16)) | (rng.choice([0, 1, 3, 0xff]) << 16)
+                return v
+            return l
+        for n in subset:
+            rewrite(n, f)
+    return kind, out
+
+
+def unknown_outermost_level(pus):
+    """every PU: the outermost level of each extended-topology leaf (0xb / 0x1f / 0x80000026) gets the unknown type 9"""
+    out = {}
+    for name, text in pus.items():
+        lines = text.split("\n")
+        last = {}
+        for i, l in enumerate(lines):
+            m = CPUID_LINE.match(l)
+            if m and m.group(2) in ("b", "1f", "80000026") and int(m.group(7), 16) & 0xffff and int(m.group(8), 16) & 0xff00:
+                last[m.group(2)] = i
+        for i in last.values():
+            f = lines[i].split(" ")
+            f[8] = "%x" % ((int(f[8], 16) & ~0xff00) | 0x900)
+            lines[i] = " ".join(f)
+        if last:
+            out[name] = "\n".join(lines)
+    return out
+
+
+def x86_mutation_cases(run, snaps):
+    """Mutated x86 CPUID dumps (topology level types rewritten, levels missing or with other counts on some PUs, duplicated
+    APIC ids, cache leaves with odd sharing counts, deleted lines, leaf 1 logical count) x flags 0 / IS_THISSYSTEM /
+    IS_THISSYSTEM|RESTRICT_TO_CPUBINDING with the process bound to a subset: clean -1 or a well-formed topology, no memory error."""
+    rng = run.rng
+    quick = run.tier == "quick"
+    cases = []
+    for snap in snaps:
+        if snap.kind != "x86":
+            continue
+        pus = tar_pu_files(snap.tarball)
+        if not pus:
+            continue
+        # systematic: an unknown outermost level with the load restricted to the binding of the process (/repo 7faf46d)
+        unk = unknown_outermost_level(pus)
+        if unk:
+            ops = ["+put %s %s" % (n, t.encode().hex()) for n, t in sorted(unk.items())]
+            for fl, bind in ((18, "0"), (18, "0,1"), (2, "1")) if not quick else ((18, rng.choice(["0", "0,1", "1"])),):
+                cases.append(("x86-mutation", (snap, "x86,stop", {"HWLOC_COMPONENTS": "x86,stop", "_bind": bind, "_light": "1"}, [], fl, ops)))
+        for _ in range(4 if quick else 40):
+            kind, changed = mutate_cpuid(rng, pus)
+            ops = ["+put %s %s" % (n, t.encode().hex() or "-") for n, t in sorted(changed.items())]
+            env = {"HWLOC_COMPONENTS": "x86,stop"}
+            mode = rng.choice(["foreign", "foreign", "thissystem", "restrict", "restrict"])
+            flags = 0
+            if mode == "foreign":
+                env["HWLOC_THISSYSTEM"] = "0"
+                flags = rng.choice([0, 0, 1, 128])
+            else:
+                flags = 2 if mode == "thissystem" else 18
+                env["_bind"] = rng.choice(["0", "0,1", "1", "all", "0,2,3"])
+            if rng.random() < 0.3:
+                env["HWLOC_X86_TOPOEXT_NUMANODES"] = "1"
+            if rng.random() < 0.7:
+                env["_light"] = "1"
+            cases.append(("x86-mutation", (snap, "x86,stop", env, S.filter_lines(rng) if rng.random() < 0.3 else [], flags, ops)))
+    return cases
+
+
 def select_snapshots(run):
     lin = [Snap(t) for t in S.snapshots("linux")]
     x86 = [Snap(t) for t in S.snapshots("x86")]
@@ -1474,6 +1703,7 @@ def check_snapshots(run, snapexe, drv, replay_case=None):
         labelled += equiv_cases(run, allsnaps)
         labelled += corrupt_cases(run, pool, allsnaps)
         labelled += node_mutation_cases(run, pool, allsnaps)
+        labelled += x86_mutation_cases(run, allsnaps)
         run.cov["snapshots_used"] = sorted(s.rel for s in snaps)
         # judge per label so that the evidence shows the distribution
         cases = [c for _, c in labelled]
